@@ -34,7 +34,7 @@ Definition any_identifier (y : yaml) : bool :=
   end.
 
 Definition excluded_entry2 (o : oracles) (k v : yaml) : bool :=
-  excluded_entry o k v || d32_entry o k v || d28_entry o k v.
+  excluded_entry o k v || d32_entry o k v || d28_entry o k v || d28_member_entry o k v.
 Definition excl_free2 (o : oracles) (y : yaml) : Prop :=
   entry_exists (S (yaml_depth y)) (excluded_entry2 o) y = false.
 
